@@ -189,7 +189,7 @@ func genbankDBLinkPairParser(gb *GenBank, depth int) pars.Parser {
 		case -1:
 			return pars.NewError("expected `:`", state.Position())
 		default:
-			if len(s) < i+2 {
+			if len(s) < i+2 || s[i+1] != ' ' || strings.TrimSpace(s[i+2:]) == "" {
 				return pars.NewError("expected value after `:`", state.Position())
 			}
 			// One entry per line, as the writer writes them: a database may
@@ -210,14 +210,16 @@ func genbankDBLinkParser(gb *GenBank, depth int) pars.Parser {
 		}
 		// The entries reach the record only when the whole field was read:
 		// a field that fails here is read again by another parser.
+		// A DBLINK field that cannot be read is an error of the record: it is
+		// not handed on to the parser of unknown fields.
 		pairs := []Pair{}
 		if err := pairParser(state, result); err != nil {
-			return err
+			return fieldError{err}
 		}
 		pairs = append(pairs, result.Value.(Pair))
 		for indentParser(state, pars.Void) == nil {
 			if err := pairParser(state, result); err != nil {
-				return err
+				return fieldError{err}
 			}
 			pairs = append(pairs, result.Value.(Pair))
 		}
